@@ -128,7 +128,9 @@ claim("C15",
       "DESIGN.md 2.5, 3 (C15)")
 
 _KERNEL_NOTE = ("Trusted: the Obara-Saika/HGP recurrences as written in DESIGN.md 2.2 (target-relative form in gbsa/stencil_spec.py); numpy "
-                "indexing/broadcasting semantics as modelled by the label-carrying evaluator gbsa/stencil.py; sympy simplify; assembly is C09's.")
+                "indexing/broadcasting semantics as modelled by the label-carrying evaluator gbsa/stencil.py; sympy simplify; assembly is C09's. "
+                "COVER (that every table entry reaching the result is computed - a deleted recursion step is not a wrong store) is decided by replaying the "
+                "extracted index regions of stores/loads/gathers for all size parameters up to 3 (2 for the ERI kernel; 4 in the thorough tier): bounded in the sizes.")
 
 claim("C01",
       "recurrence (stencil) extraction + coefficient-wise conformance by computer algebra; axis-provenance typing of the kernel; closed-form check of the norms",
